@@ -30,6 +30,7 @@ TagVals == { <<118>>, <<109, 58, 115, 116, 111, 112, 64, 50, 48, 50, 48, 45, 48,
              <<109, 58, 32, 111, 112, 64, 50, 48, 50, 52, 45, 48, 50, 45, 50, 57>>, <<58, 64, 50, 48, 50, 48, 45, 48, 49, 45, 48, 49>> }  \* "m: op@2024-02-29" ; ":@2020-01-01"
 TagKeys == { <<107>>, <<113>> }
 TagLists == { s \in Seqs({ Tag(k, v) : k \in TagKeys, v \in {<<118>>, <<119>>} }, 2) : TRUE }
+            \cup { <<Tag(<<107>>, <<>>), Tag(<<107>>, <<118>>)>>, <<Tag(<<107>>, <<118>>), Tag(<<107>>, <<>>)>> }      \* the first match wins, empty or not
             \cup { <<Tag(<<107>>, v)>> : v \in TagVals } \cup { <<Tag(<<113>>, <<118>>), Tag(<<107>>, v)>> : v \in TagVals }
 Arns == { <<97,114,110,58,97,119,115,58,115,51,58,58,58,98,117,99,107,101,116>>,                                         \* arn:aws:s3:::bucket
           <<97,114,110,58,97,119,115,58,101,99,50,58,117,115,45,101,97,115,116,45,49,58,49,50,51,58,105,110,115,116,97,110,99,101,47,105,45,49>>,   \* arn:aws:ec2:us-east-1:123:instance/i-1
